@@ -141,7 +141,7 @@ impl Prop for C09 {
     }
     fn rule(&self) -> String {
         "corpus A (syntax deviation <=1 quick / <=2 thorough) x contexts x {L0, LALL} x configuration deviations <=1 \
-         (thorough: interaction pairs) x style editions {2015,2018,2021,2024} x every width, plus corpus B (every .rs fixture \
+         (thorough: interaction pairs) x style editions {2015,2018,2021,2024} x every width (quick tier, deviated configurations: every width up to 70 and every fifth above), plus corpus B (every .rs fixture \
          under tests/source and tests/target with its header configuration; quick: widths {60,100}, thorough: every width). \
          Oracles: out(2015)==out(2018)==out(2021); working-tree bytes == bytes of the frozen build of the pinned sources for \
          every case the frozen build formats without error. Non-trivial = emitted text differs from the input; distinct = \
@@ -243,7 +243,14 @@ impl Prop for C09 {
     fn check(&self, u: &Unit, tier: Tier, sink: &mut Sink) {
         let thorough = tier == Tier::Thorough;
         let is_b = u.extra["corpus"] == "B";
-        let widths: Vec<usize> = if is_b && !thorough { vec![60, 100] } else { widths_for(&u.cfg, tier) };
+        let widths: Vec<usize> = if is_b && !thorough {
+            vec![60, 100]
+        } else if !thorough && !u.cfg.kv.is_empty() {
+            // quick tier, deviated configurations: every width up to 70, every fifth above
+            widths_for(&u.cfg, tier).into_iter().filter(|w| *w <= 70 || w % 5 == 0).collect()
+        } else {
+            widths_for(&u.cfg, tier)
+        };
         // outputs of the working tree per style edition
         let ses: [u16; 4] = [2015, 2018, 2021, 2024];
         // quick tier, deviated configurations: style edition 2015 only (2024 runs on the default configuration)
